@@ -444,7 +444,7 @@ func c18RunGrid(in *hub.Instance, cs c18GridCase) (string, *engine.Violation) {
 func init() {
 	base := MultiRunner(func(tier string) ([]MultiCase, []string) {
 		var cases []MultiCase
-		depth, dl := 4, 12*time.Second
+		depth, dl := 4, 40*time.Second
 		vecs := [][]int64{{10, 10, 10}, {1, 1, 1}, {50, 25, 25}, {1, 1}, {66, 34}, {65, 35}, {10, 10, 10, 0}}
 		if tier == "thorough" {
 			depth, dl = 6, 2*time.Minute
